@@ -80,3 +80,31 @@ Fixpoint layer_b (fuel : nat) (l : lspec) (s : shape) : option shape :=
 
 Fixpoint run_b (ls : list lspec) (s : option shape) : option shape :=
   match ls, s with [], _ => s | _, None => None | x :: r, Some s' => run_b r (layer_b 3 x s') end.
+
+(* ---- the 'unique' connection scheme.  LogicDense (functional.get_unique_connections) wires n_out neurons to distinct input
+   pairs and insists that every input can be used: n_in <= 2 n_out and n_out <= n_in (n_in - 1) / 2.  A convolution of tree depth d
+   draws 2^d distinct pairs among its rf^dims * channels receptive-field positions. *)
+Definition pairs (n : Z) : Z := n * (n - 1) / 2.
+
+Fixpoint unique_ok (l : lspec) : Prop :=
+  match l with
+  | LSConv in_dim channels kernels rf stride pad depth => 2 ^ depth <= pairs (zprod (map (fun _ => rf) in_dim) * channels)
+  | LSDense n_in n_out => n_in <= 2 * n_out /\ n_out <= pairs n_in
+  | LSResidual main short =>
+      (fix all (ls : list lspec) : Prop := match ls with [] => True | x :: r => unique_ok x /\ all r end) main
+      /\ (fix all (ls : list lspec) : Prop := match ls with [] => True | x :: r => unique_ok x /\ all r end) short
+  | _ => True
+  end.
+
+Fixpoint unique_all (ls : list lspec) : Prop := match ls with [] => True | x :: r => unique_ok x /\ unique_all r end.
+
+(* executable variant for the fixed-scale classes *)
+Fixpoint unique_b (fuel : nat) (l : lspec) : bool :=
+  match fuel with O => false | S f =>
+  match l with
+  | LSConv in_dim channels kernels rf stride pad depth => 2 ^ depth <=? pairs (zprod (map (fun _ => rf) in_dim) * channels)
+  | LSDense n_in n_out => (n_in <=? 2 * n_out) && (n_out <=? pairs n_in)
+  | LSResidual main short => forallb (unique_b f) main && forallb (unique_b f) short
+  | _ => true
+  end end.
+Definition unique_all_b (ls : list lspec) : bool := forallb (unique_b 3) ls.
